@@ -17,7 +17,9 @@ decides whether
             offset NUM·2^(SZX+4) (1024-byte units for BERT), never flagged as the last block before the end of
             the body (a set `more` flag on the block that happens to end the body only costs progress — DESIGN §6 O2 —
             and is not judged), total size announced correctly (RFC 7959 §2.2, §4);
-* `hang`    when the history ends every call has returned (with a response or an error).
+* `hang`    when the history ends every call has returned (with a response or an error);
+* `oneway`  a one-way write that reported success, in a history without any fault and with nothing left in flight, has
+            brought its body to the peer's application (the one-way style has no other way to "end with an error").
 
 Bodies are compared through a digest (length, 64-bit FNV-1a) so that the histories stay small.
 -/
@@ -70,6 +72,9 @@ inductive Ev
   | started (tok : Nat)               -- a request/response call starts
   | returned (tok : Nat)              -- … and returns (response or error)
   | finished                          -- end of the history (after every deadline has passed)
+  | wrote (side tok : Nat) (ok : Bool) -- a one-way write of `side`'s application returned
+  | disturbed                         -- the network did something else than deliver the oldest message, or time passed
+  | settled (inFlight : Nat)          -- the history is at rest: this many messages are still in flight
   deriving Repr
 
 inductive Class | request | response | other
@@ -105,9 +110,16 @@ def isBodyDelivery (m : Seen) : Bool :=
 def isStart (m : Seen) : Bool :=
   isBodyDelivery m && (match dataBlock m with | some (_, n, _) => decide (n = 0) | none => true)
 
-/-- the latest message `side`'s peer supplied under this token, class and ETag -/
-def lookup (sents : List Sent) (side : Nat) (m : Seen) : Option Sent :=
-  (sents.reverse.find? (fun s => s.side != side && s.tok == m.tok && classOf s.code == classOf m.code && s.etag == m.etag))
+/-- what `side`'s peer supplied under this token, class and ETag, latest first.  Under the ETag discipline of
+    RFC 7959 §2.4 (an ETag stands for one representation) there is at most one; if an application hands out one ETag
+    for several bodies, a message is judged against each of them and accepted if it is right for one: which of its own
+    equally-tagged bodies a sender serves is not the layer's business. -/
+def candidates (sents : List Sent) (side : Nat) (m : Seen) : List Sent :=
+  sents.reverse.filter (fun s => s.side != side && s.tok == m.tok && classOf s.code == classOf m.code && s.etag == m.etag)
+
+/-- first complaint of a list of verdicts (latest candidate first), unless one candidate has none -/
+def anyAccepts (vs : List (Option String)) : Option String :=
+  if vs.any (·.isNone) then none else vs.head?.join
 
 def anyFor (sents : List Sent) (side : Nat) (m : Seen) : Bool :=
   sents.any (fun s => s.side != side && s.tok == m.tok && classOf s.code == classOf m.code)
@@ -124,6 +136,9 @@ structure JState where
   sents : List Sent := []
   counts : List Count := []
   open_ : List Nat := []        -- calls started and not yet returned
+  wrotes : List (Nat × Nat) := []      -- (side, token) of one-way writes that returned success
+  handed : List (Nat × Nat) := []      -- (side, token) of body deliveries
+  disturbed : Bool := false
   deriving Repr
 
 def bump (cs : List Count) (side tok : Nat) (cls : Class) (ds dd : Nat) : List Count × Count :=
@@ -135,12 +150,24 @@ def bump (cs : List Count) (side tok : Nat) (cls : Class) (ds dd : Nat) : List C
     let c' : Count := { side := side, tok := tok, cls := cls, starts := ds, deliveries := dd }
     (c' :: cs, c')
 
+def anyAcceptsIn (s : JState) (cs : List Sent) (f : Sent → Option String) : JState × Option String :=
+  (s, anyAccepts (cs.map f))
+
 /-- verdict on one event: `none` = fine, `some clause` = the property is violated here -/
 def judgeEv (s : JState) : Ev → JState × Option String
   | .sent x => ({ s with sents := s.sents ++ [x] }, none)
   | .started tok => ({ s with open_ := tok :: s.open_ }, none)
   | .returned tok => ({ s with open_ := s.open_.erase tok }, none)
   | .finished => (s, if s.open_.isEmpty then none else some s!"hang: calls {s.open_} never returned")
+  | .wrote side tok ok => (if ok then { s with wrotes := (side, tok) :: s.wrotes } else s, none)
+  | .disturbed => ({ s with disturbed := true }, none)
+  | .settled n =>
+    -- the one-way style has no answer to wait for: a write that reported success, in a history without any fault, whose
+    -- messages have all been delivered, must have brought its body to the peer's application
+    if n ≠ 0 ∨ s.disturbed then (s, none) else
+    match s.wrotes.find? (fun (side, tok) => !s.handed.contains (1 - side, tok)) with
+    | some (_, tok) => (s, some s!"oneway: token {tok}: WriteMessage returned success and every message was delivered without a fault, but nothing reached the peer's application")
+    | none => (s, none)
   | .arrive side m =>
     if isStart m then ({ s with counts := (bump s.counts side m.tok (classOf m.code) 1 0).1 }, none) else (s, none)
   | .wire side m =>
@@ -149,36 +176,35 @@ def judgeEv (s : JState) : Ev → JState × Option String
     | none => (s, none)
     | some (szx, num, more) =>
       if isLayerSignal m.code then (s, none) else
-      match lookup s.sents (1 - side) m with     -- supplied by `side` itself = by the peer of `1 - side`
-      | none => (s, none)                          -- not a body of this side's application (e.g. a block request)
-      | some x =>
+      -- supplied by `side` itself = by the peer of `1 - side`; no candidate: not a body of this side's application
+      anyAcceptsIn s (candidates s.sents (1 - side) m) (fun x =>
         let off := num * unit szx
         let slice := (x.body.drop off).take m.body.len
         if off > x.body.length ∨ digest slice ≠ m.body then
-          (s, some s!"slice: block {num} (szx {szx}) of token {m.tok} is not bytes [{off}, {off + m.body.len}) of the body supplied")
+          some s!"slice: block {num} (szx {szx}) of token {m.tok} is not bytes [{off}, {off + m.body.len}) of the body supplied"
         else if more = false ∧ off + m.body.len < x.body.length then
-          (s, some s!"slice: block {num} (szx {szx}) of token {m.tok} is flagged as the last one but ends at {off + m.body.len} of {x.body.length}")
+          some s!"slice: block {num} (szx {szx}) of token {m.tok} is flagged as the last one but ends at {off + m.body.len} of {x.body.length}"
         else if dataSize m ≠ some x.body.length then
-          (s, some s!"slice: token {m.tok}: announced size {dataSize m}, body has {x.body.length} bytes")
-        else if m.other ≠ x.other then (s, some s!"slice: token {m.tok}: options of the block differ from the message's options")
-        else (s, none)
+          some s!"slice: token {m.tok}: announced size {dataSize m}, body has {x.body.length} bytes"
+        else if m.other ≠ x.other then some s!"slice: token {m.tok}: options of the block differ from the message's options"
+        else none)
   | .deliver side m =>
     if !isBodyDelivery m then (s, none) else
     let (cs, c) := bump s.counts side m.tok (classOf m.code) 0 1
-    let s' := { s with counts := cs }
+    let s' := { s with counts := cs, handed := (side, m.tok) :: s.handed }
     if c.deliveries > c.starts then
       (s', some s!"once: token {m.tok}: delivery {c.deliveries} of a body to side {side} after only {c.starts} arrivals of a first block")
     else
-    match lookup s.sents side m with
-    | none =>
+    if (candidates s.sents side m).isEmpty then
       if anyFor s.sents side m then (s', some s!"exact: token {m.tok}: a body with ETag {repr m.etag} was delivered to side {side} but never supplied")
       else (s', some s!"exact: token {m.tok}: a message was delivered to side {side} that the peer's application never supplied")
-    | some x =>
-      if digest x.body ≠ m.body then
-        (s', some s!"exact: token {m.tok}: delivered {m.body.len} bytes (fnv {m.body.fnv}), supplied {x.body.length} bytes")
-      else if x.code ≠ m.code then (s', some s!"exact: token {m.tok}: delivered code {m.code}, supplied {x.code}")
-      else if x.other ≠ m.other then (s', some s!"exact: token {m.tok}: other options not preserved")
-      else (s', none)
+    else
+      anyAcceptsIn s' (candidates s.sents side m) (fun x =>
+        if digest x.body ≠ m.body then
+          some s!"exact: token {m.tok}: delivered {m.body.len} bytes (fnv {m.body.fnv}), supplied {x.body.length} bytes"
+        else if x.code ≠ m.code then some s!"exact: token {m.tok}: delivered code {m.code}, supplied {x.code}"
+        else if x.other ≠ m.other then some s!"exact: token {m.tok}: other options not preserved"
+        else none)
 
 /-- the whole history: first violated clause, if any -/
 def judge : JState → List Ev → Option String
